@@ -32,7 +32,7 @@ def n_runs(tier):
 
 
 def generate(rng, tier, index):
-    wp = world.gen_world_plan(rng, big=(tier == "thorough"))
+    wp = world.gen_world_plan(rng, big=(tier == "thorough"), giant=0.008)
     n = rng.choice(wp["images"])["lines"]
     plan = {"world": wp, "rpc": common.pick_rpc(rng, n)}
     if rng.random() < 0.4:
